@@ -23,6 +23,9 @@ pub struct Job {
     pub spec: Option<RunSpec>,
     #[serde(default)]
     pub want_trace: bool,
+    /// Run this job in the dense build (basic-block edges as scheduling points).
+    #[serde(default)]
+    pub dense: bool,
 }
 
 pub fn setup_process() {
